@@ -197,3 +197,17 @@ func (o *Obligation) slicedQuery() string {
 	}
 	return b.String()
 }
+
+// groundOnly drops every quantified assertion of a query. What remains is a weaker set of assumptions:
+// if it is unsatisfiable, so is the full query.
+func groundOnly(q string) string {
+	var b strings.Builder
+	for _, l := range strings.Split(q, "\n") {
+		if strings.HasPrefix(l, "(assert") && (strings.Contains(l, "(forall ") || strings.Contains(l, "(exists ")) {
+			continue
+		}
+		b.WriteString(l)
+		b.WriteByte('\n')
+	}
+	return b.String()
+}
